@@ -140,7 +140,18 @@ func genProfile(r *rand.Rand, i int) *profile.Profile {
 		shape = 1 + r.Intn(3)
 		p.SampleType = [][]*profile.ValueType{nil, {{Type: "v", Unit: "count"}, {Type: "n", Unit: "count"}}, {{Type: "v", Unit: "count"}}, {{Type: "x", Unit: "bytes"}, {Type: "v", Unit: "count"}}}[shape]
 	}
-	for k, n := 0, 1+r.Intn(3); k < n; k++ {
+	// every source has its own duration and comment, some their own binary; one in ten has no
+	// samples at all (an idle server) and still counts as fetched
+	p.DurationNanos = int64(1+r.Intn(5)) * 1000000000
+	p.Comments = []string{fmt.Sprintf("source %d", i)}
+	if r.Intn(4) == 0 {
+		m.File = fmt.Sprintf("/bin/other%d", r.Intn(3))
+	}
+	ns := 1 + r.Intn(3)
+	if r.Intn(10) == 0 {
+		ns = 0
+	}
+	for k, n := 0, ns; k < n; k++ {
 		s := &profile.Sample{Value: []int64{int64(1 + r.Intn(3)), int64(1 + r.Intn(9))}, Label: map[string][]string{"src": {fmt.Sprint(i)}}}
 		switch shape {
 		case 1:
@@ -336,6 +347,42 @@ func run(c *harness.Ctx) harness.Result {
 		res.Verdict = harness.Violated
 		res.Detail = fmt.Sprintf("%s: -traces differs from the run that lists only the %d+%d successful sources (err=%v)\n--- with failures\n%s\n--- only successful\n%s", desc, len(goodS), len(goodB), refRun.err, harness.Trunc(first.out, 1500), harness.Trunc(refRun.out, 1500))
 		return res
+	}
+	// (c) the saved profile is the merge of exactly the successful sources: samples, total
+	// duration, comments, binaries (sources only; bases are subtracted and tagged by the driver)
+	if nb == 0 {
+		saved, _ := session(c, srcs, bases, profs, kind, 78, "proto")
+		sp, err := profile.ParseData([]byte(saved.out))
+		if err != nil {
+			return harness.Violation("%s: -proto output unparseable: %v", desc, err)
+		}
+		var cps []*profile.Profile
+		for _, s := range goodS {
+			cps = append(cps, profs[s].Copy())
+		}
+		if err := profile.CompatibilizeSampleTypes(cps); err == nil {
+			if want, err := profile.Merge(cps); err == nil {
+				wv, _ := ref.SumView(want)
+				gv, _ := ref.SumView(sp)
+				if d := ref.DiffSum(wv, gv); d != "" {
+					return harness.Violation("%s: the profile saved with -proto is not the merge of the %d successful sources:\n%s", desc, len(goodS), d)
+				}
+				hdr := func(p *profile.Profile) string {
+					cm := append([]string{}, p.Comments...)
+					sort.Strings(cm)
+					var files []string
+					for _, m := range p.Mapping {
+						files = append(files, m.File)
+					}
+					sort.Strings(files)
+					return fmt.Sprintf("duration=%d comments=%q binaries=%q", p.DurationNanos, cm, files)
+				}
+				if hdr(want) != hdr(sp) {
+					return harness.Violation("%s: header of the profile saved with -proto differs from the merge of the %d successful sources:\n got %s\nwant %s", desc, len(goodS), harness.Trunc(hdr(sp), 1500), harness.Trunc(hdr(want), 1500))
+				}
+				c.Stat("saved_profile_compared", 1)
+			}
+		}
 	}
 	// (b) reference: entry-wise signed sum of the successful profiles
 	top, _ := session(c, srcs, bases, profs, kind, 77, "top")
